@@ -1,5 +1,7 @@
 """Family "ranksel": rank / select structures (spec/RankSel.tla; design models RankDesign.tla,
 SelectDesign.tla, Select9Design.tla, SelectSmallDesign.tla)."""
+import random
+
 import gen_ranksel as g
 
 FAMILY = "ranksel"
@@ -58,6 +60,8 @@ def episodes(prop, tier, seed):
     if prop == "C12":
         out["ood"] = (g.c12_episodes(seed, 1 if q else 3), "verif")
         out["ood-small"] = (g.main_episodes(seed + 12, {"rank", "select"}, None, 1)[:60], "verif")
+        # in-domain calls must not read outside either: every span class of Select9 (sentinels of the subinventories)
+        out["ood-s9"] = (g.s9_boundary_episodes(random.Random(seed + 13), {"select"}), "verif")
         if not q:
             out["ood-release"] = (g.c12_episodes(seed + 1, 1), "release")
     if prop == "C15":
